@@ -118,6 +118,9 @@ def r1_math_space_mapping(w):
             r.bad(cons, 'convert_math_delimited|peel|%s|%s' % (which, item),
                   'convert_math_delimited with edge children %s returns a document whose whitespace is %s, expected %s: the space / line break at the inner edge of the delimiters '
                   'would be created, removed or converted' % ([x[1] for x in pl], list(got), list(wnt)), b.loc())
+    # children may be removed only where the per-kind rules can see it: no element-dropping adaptor in front of a loop over syntax nodes
+    for ok, cons, key, why, loc in e2.filter_obligations(w):
+        (r.ok(cons, why) if ok else r.bad(cons, key, why, loc))
     return r
 
 
